@@ -368,6 +368,13 @@ func c07Prop(t *rapid.T) {
 					lbl["resource-in-another-namespace"] = true
 				}
 			}
+			// a template may set the managed-by label itself (to its author's tool): Helm's own value must win
+			for k := range op.Chart.Resources {
+				if rapid.IntRange(0, 7).Draw(t, "templateSetsManagedBy") == 0 {
+					op.Chart.Resources[k].ManagedBy = "chart-author"
+					lbl["template-sets-managed-by-itself"] = true
+				}
+			}
 			if !op.DisableHooks {
 				op.Chart.Hooks = genSimpleHooks(t)
 			}
@@ -406,6 +413,11 @@ func c07Prop(t *rapid.T) {
 				op.Interject = &world.Interject{AtKube: rapid.IntRange(0, kn-1).Draw(t, "interjectAt"), Path: r.Path(), Object: c07Preexisting(r, v)}
 				lbl["object-appears-during-operation"] = true
 			}
+		}
+		// --atomic (drawn only where nothing else interferes): a refusal is not a failed deployment and must not start
+		// the automatic rollback
+		if (op.Kind == "install" || op.Kind == "upgrade") && op.Fault.Kind == "" && op.Interject == nil && rapid.IntRange(0, 2).Draw(t, "atomic") == 0 {
+			op.Atomic = true
 		}
 		cut, conflict, pre := j.runOp(op)
 		if h := w.History(); op.Kind == "upgrade" && len(h) > 0 && h[len(h)-1].Status == "failed" {
